@@ -183,8 +183,15 @@ class World:
         hw = {}
         ns = {'__module__': __name__, 'rng_': self.FloatEnumParam('range', labels, unit)}
 
+        coerce = rng.random() < 0.35      # the hardware supports only some of the indices and takes the closest one
+
         def write_rng__idx(self, v):
-            hw['idx'] = int(v)
+            v = int(v)
+            if coerce:
+                vd = self.parameters['rng_'].valuedict
+                sup = hw.setdefault('supported', sorted(rng.sample(sorted(vd), max(1, len(vd) - 1))))
+                v = min(sup, key=lambda i: (abs(vd[i] - vd.get(v, 0)), i))
+            hw['idx'] = v
             return v
         ns['write_rng__idx'] = write_rng__idx
         if with_read:
@@ -195,7 +202,9 @@ class World:
         conn = self.nodes.Conn()
         node.dispatcher.add_connection(conn)
         vdict = m.parameters['rng_'].valuedict
-        case = {'sub': 'floatenum', 'labels': repr(labels), 'unit': unit, 'ops': []}
+        case = {'sub': 'floatenum', 'labels': repr(labels), 'unit': unit, 'coercing_hardware': coerce, 'ops': []}
+        if coerce:
+            r.count('floatenum_sequences_with_coercing_hardware')
         touched = False
         for step in range(rng.randint(2, 10)):
             op = rng.choice(['write_float', 'write_idx', 'change_float_wire', 'change_idx_wire', 'assign_idx', 'read_idx', 'read_float_wire'])
@@ -230,7 +239,7 @@ class World:
                 r.violation(f'C18/floatenum/value-not-of-current-index/{op}',
                             f'index {cur} -> {vdict[cur]} but parameter shows {m.rng_} / cache {shown}', case)
                 break
-            if op in ('write_float', 'change_float_wire'):
+            if op in ('write_float', 'change_float_wire') and not coerce:
                 best = min(abs(x - v) for x in vdict.values())
                 if abs(vdict[cur] - v) > best * (1 + 1e-12):
                     r.violation('C18/floatenum/not-closest', f'write {v}: selected {vdict[cur]} but {best} is the minimal distance', case)
